@@ -386,7 +386,7 @@ def batching(rep):
         if um:
             st, b_ = um[0]
             PD, NT = b_["pd"], b_["nt"]
-            later = [x for x in lp.body if x.lineno > st.lineno]
+            later = lp.body[[i_ for i_, x in enumerate(lp.body) if x is st][0] + 1:] if any(x is st for x in lp.body) else []  # by position (substituted helpers share one line)
             # the template list handed to the next batch is the one this batch returned
             rebinding = [x for x in walk_local(lp) if isinstance(x, (ast.Assign, ast.AugAssign)) and any(
                 isinstance(t_, ast.Name) and t_.id == OT for t_ in (x.targets if isinstance(x, ast.Assign) else [x.target]))]
